@@ -203,3 +203,38 @@ def mixed_radix_unit(ctx, res, col, reg):
         ob.status = "unsat" if ok else "unknown"
         ob.detail = "flag == bits of (sum of flags << offsets), per flag: decomposition + slot lemma"
         col.obligations.append(ob)
+
+
+def msgstr_chunk_unit(ctx, res, col, reg, lo, hi):
+    """msgstr2bytes body against its contract for message-ID table entries lo..hi: the class/ID bytes of the table
+    entry (first entry of that name), UBXMessageError for unknown names, and no write to shared state"""
+    from .verify import verify_function
+    from .contracts import Contract
+    core, _ = _tabs()
+    entries = list(core.UBX_MSGIDS.items())[lo:hi]
+    qn = "pyubx2.ubxhelpers.msgstr2bytes"
+    for key, name in entries:
+        cname = core.UBX_CLASSES.get(key[0:1])
+        if cname is None:
+            continue
+        first = [k for k, v in core.UBX_MSGIDS.items() if v == name][0]
+        c = Contract(qn, params={"msgclass": ("const", cname), "msgid": ("const", name)},
+                     ensures=[("table-entry", f"result == ({key[0:1]!r}, {first[1:2]!r})")],
+                     raises={}, modifies=[])
+        verify_function(reg, c, col, label=f"msgstr2bytes[{cname} {name}]")
+    if lo == 0:
+        c = Contract(qn, params={"msgclass": ("const", "CFG"), "msgid": ("const", "NO-SUCH-MESSAGE")},
+                     ensures=[("never", "False")], raises={"UBXMessageError": None}, modifies=[])
+        verify_function(reg, c, col, label="msgstr2bytes[unknown name]")
+    res.functions.append(qn)
+
+
+def msgstr_units(p, select=None):
+    from .units import CustomUnit
+    core, _ = _tabs()
+    n = len(core.UBX_MSGIDS)
+    for lo in range(0, n, 40):
+        u = CustomUnit(f"msgstr2bytes[{lo}:{min(lo + 40, n)}]", msgstr_chunk_unit, (lo, min(lo + 40, n)), props=(p.prop,), cost=8)
+        if select:
+            u.select = select
+        p.add(u)
